@@ -62,6 +62,13 @@ def check_pipeline(case):
         als = sut(reader.readAlignments, io.StringIO(text))
         compare(als, run.parsed[suf], lambda i: run.refs[i], lambda i: run.queries[i], f"mode {run.mode} file {suf}")
         recs = run.files[suf]
+        if suf == "main" and run.rows is not None and len(run.rows) == len(als):
+            # the rows handed to the writer: confidence must survive to two decimals
+            for a, row in zip(als, run.rows):
+                req(abs(float(a.confidence) - row.confidence) <= 0.0051 + 1e-9 * abs(row.confidence), "roundtrip-confidence-vs-row",
+                    f"mode {run.mode} main entry {a.alignmentId}: confidence read back {a.confidence}, the alignment's confidence is {row.confidence!r}")
+                if round(row.confidence * 10) != row.confidence * 10:
+                    cl.append("confidence-with-second-decimal")
         cl.append("zero-record-file" if not recs else "one-record-file" if len(recs) == 1 else "multi-record-file")
         if len(recs) >= 2 and any(r["Orientation"] == "-" or r.get("AlignedRest") == "True" for r in recs):
             nt = True
@@ -100,6 +107,8 @@ def check_unit(case):
             "roundtrip-pairs-vs-row", "pairs read back differ from the row that was written")
         req(a.cigarString == row.cigarString, "roundtrip-hitenum-vs-row", f"HitEnum read {a.cigarString!r}, row has {row.cigarString!r}")
         req(a.queryStartPosition == int(float(f"{row.queryStartPosition:.1f}")), "roundtrip-coordinate-vs-row", "QryStartPos read back differs from the row")
+        req(abs(float(a.confidence) - row.confidence) <= 0.0051 + 1e-9 * abs(row.confidence), "roundtrip-confidence-vs-row",
+            f"confidence read back {a.confidence}, the alignment's confidence is {row.confidence!r}")
     return {"nontrivial": len(rows) >= 2 and case["rev"], "classes": [f"rows={len(rows)}", "rev" if case["rev"] else "fwd"]}
 
 
@@ -114,7 +123,7 @@ def subchecks(tier):
     q = tier == "quick"
     return [
         Sub("pipeline-files", "hyp", check_pipeline, strategy=lambda: gen_maps.pipeline_case(weight_default=4), examples=1000 if q else 30000,
-            shrink_budget=100, sample_filter=gen_maps.short_case, required_classes=("zero-record-file", "one-record-file", "multi-record-file")),
+            shrink_budget=100, sample_filter=gen_maps.short_case, required_classes=("zero-record-file", "one-record-file", "multi-record-file", "confidence-with-second-decimal")),
         Sub("writer-reader-unit", "hyp", check_unit, strategy=unit_strategy, examples=5000 if q else 100000, shrink_budget=300,
             required_classes=("rows=0", "rows=1")),
     ]
